@@ -837,6 +837,8 @@ def r6_line_counter(ctx):
     g = ctx.cfg(f)
     rd = ctx.rd(f)
     heads = [n for n in g.nodes if n.kind == 'for' and not n.dup and not any(fr.kind == 'loop' for fr in n.frames)]
+    need(heads, 'C13.R6: loop over the grouped lines not found')
+    need(len(heads) == 1, 'C13.R6: the groups are walked by %d top-level loops (a collect phase and an act phase?): the single pass this rule reasons about was not recognised' % len(heads))
     head = heads[0]
     chunk = head.ast.target.id if isinstance(head.ast.target, ast.Name) else None
     need(chunk, 'C13.R6: loop target not a name')
